@@ -89,7 +89,8 @@ def edit_request(draw, routes=("lib", "cli")):
             else:
                 fields[f] = {"op": "set", "value": draw(text(cli))}
         else:
-            if not cli and draw(st.sampled_from([True] + [False] * 3)):
+            if draw(st.sampled_from([True] + [False] * 3)):
+                # on the command line the only spelling of "cleared" is an empty argument: --tracker ""
                 fields[f] = {"op": "clear"}
             else:
                 lst = draw(url_list(cli))
